@@ -79,6 +79,9 @@ def c01_jobs(tier):
             for (n, cap) in cells(tier): js.append(ops_job(op, 'int', n, cap))
         for op in ['insert_n', 'insert_c', 'push_back_m', 'erase_range', 'resize_v', 'assign_n', 'emplace_back', 'insert_range']:
             for (n, cap) in [(2, 2), (2, 4)]: js.append(ops_job(op, 'Tr', n, cap))
+        # a larger heap capacity with counts up to 3 for the shifting operations (tails of 2 or more elements next to counts of 2..3)
+        for op in ['insert_n', 'insert_range', 'insert_il', 'insert_c', 'emplace', 'erase_range', 'assign_n', 'resize_v']:
+            js.append(ops_job(op, 'int', 2, 6, maxcnt=3)); js.append(ops_job(op, 'int', 0, 5, maxcnt=3))
     else:
         for op in OPS_ALL:
             for (n, cap) in cells(tier):
@@ -277,6 +280,7 @@ def c11_jobs(tier):
             for (n, cap) in ([(2, 2), (2, 4), (0, 2)] if tier == 'quick' else [c for c in cells(tier) if c[1] > 0]):
                 if tier == 'quick' and el == 'Tr' and (n, cap) == (0, 2): continue
                 js.append(ops_job(op, el, n, cap, alias=1, maxcnt=2 if tier == 'quick' else 3))
+    for op in ['insert_n', 'insert_c', 'emplace']: js.append(ops_job(op, 'int', 2, 6, alias=1, maxcnt=3))
     return _nn(js)
 REG['C11'] = Spec('C11', c11_jobs, tags=['C11', 'C01'], memsafe=True, explanation=
     'push_back(v[i]), emplace_back(v[i]), insert(pos,v[i]), insert(pos,n,v[i]), emplace(pos,v[i]), resize(n,v[i]) with symbolic i<size, pos<=size, n, from every (rep,cap,size) cell, '
